@@ -283,7 +283,9 @@ Definition interf_of (specs : list (list regop)) (attempt : N) (r : registry) : 
 
 (* ----------------------------------------------------------------- history *)
 Inductive op :=
-| ORegister (n : node) (ty : ntype) (stt : nstatus) (load : N)   (* register_node(NodeInfo{..}) *)
+| ORegister (n : node) (ty : ntype) (stt : nstatus) (load : N) (shards : list shard)
+    (* register_node(NodeInfo{..}); the other public fields (addr, capacity, last_heartbeat) are not
+       consulted by routing and are varied by the harness only *)
 | OSetStatus (n : node) (stt : nstatus)      (* what run_health_checks does to a node; timing is an input *)
 | OHeartbeat (n : node)
 | ODrain (n : node)
@@ -307,7 +309,7 @@ Definition heartbeat (n : node) (r : registry) : registry * bool :=
 
 Definition step (strat : strategy) (H : hashes) (st : state) (o : op) : state * result :=
   match o with
-  | ORegister n ty stt load => (with_reg st (aset N.eqb n (mkNode ty stt load []) (st_reg st)), RUnit)
+  | ORegister n ty stt load shards => (with_reg st (aset N.eqb n (mkNode ty stt load shards) (st_reg st)), RUnit)
   | OSetStatus n stt => (with_reg st (reg_update n (set_status stt) (st_reg st)), RUnit)
   | OHeartbeat n => let (r, b) := heartbeat n (st_reg st) in (with_reg st r, RBool b)
   | ODrain n => (with_reg st (reg_update n (set_status Draining) (st_reg st)), RUnit)
